@@ -5,7 +5,9 @@
  * Every __wrap_X below is reached from the ivykis objects (and the harness)
  * through -Wl,--wrap=X; the shim itself always calls __real_X.
  */
+#ifndef _GNU_SOURCE
 #define _GNU_SOURCE
+#endif
 #include <errno.h>
 #include <fcntl.h>
 #include <pthread.h>
@@ -86,6 +88,7 @@ struct vthr {
 	uint64_t		nwaits;
 	uint64_t		rng;
 	int			exit_round;
+	int			wake_eintr;	/* leave the wait with EINTR (simulated signal at a point in virtual time) */
 };
 static struct vthr thr[MAXT];
 static _Atomic int nslots;
@@ -551,6 +554,14 @@ static int real_wait(struct waitreq *rq, int ms, const sigset_t *mask)
 
 enum { Q_NONE, Q_WOKE_ME };
 
+static struct vthr *cur_decider;
+
+void vt_interrupt_wait(void)
+{
+	if (cur_decider != NULL)
+		cur_decider->wake_eintr = 1;
+}
+
 static int try_quiesce(struct vthr *me)
 {
 	uint64_t e1 = epoch;
@@ -625,8 +636,18 @@ static int try_quiesce(struct vthr *me)
 		struct stim s = stims[best_idx];
 		stims[best_idx] = stims[--nstim];
 		vt_stats.stimuli++;
+		cur_decider = me;
 		s.fn(s.arg);
+		cur_decider = NULL;
 		atomic_fetch_add(&epoch, 1);
+		if (me->wake_eintr) {
+			int exp = T_BLOCKED_LOOP;
+			if (atomic_compare_exchange_strong(&me->state, &exp, T_WAKING)) {
+				atomic_fetch_add(&running, 1);
+				atomic_fetch_add(&epoch, 1);
+			}
+			return Q_WOKE_ME;
+		}
 		return Q_NONE;
 	}
 	if (best_kind == 2) {
@@ -749,6 +770,11 @@ static int do_wait(struct waitreq *rq, int ms_granular)
 			if (r == Q_WOKE_ME) {
 				atomic_store(&t->state, T_RUNNING);
 				n = 0;
+				if (t->wake_eintr) {
+					t->wake_eintr = 0;
+					n = -1;
+					errno = EINTR;
+				}
 				break;
 			}
 		}
@@ -924,7 +950,8 @@ long __wrap_read(int fd, void *buf, size_t n)
 	int e = errno;
 	if (fd >= 0 && fd < MAXFD && vtfd[fd].used && r > 0)
 		vtfd[fd].fired = 0;
-	hk_read(fd, buf, n, r, e);
+	if (!in_child)
+		hk_read(fd, buf, n, r, e);
 	errno = e;
 	return r;
 }
@@ -938,7 +965,8 @@ long __wrap_write(int fd, const void *buf, size_t n)
 	fl = fcntl(fd, F_GETFL);
 	r = __real_write(fd, buf, n);
 	e = errno;
-	hk_write(fd, buf, n, r, e, fl >= 0 && (fl & O_NONBLOCK));
+	if (!in_child)
+		hk_write(fd, buf, n, r, e, fl >= 0 && (fl & O_NONBLOCK));
 	errno = e;
 	return r;
 }
